@@ -416,6 +416,14 @@ void misc_case(i64 op_, i64 a_, i64 b_)
       int const w = (a != 0 && dig(p, a - 1, 2) != 0) ? a : 0;
       chk(code(r) == w, KEY(a, "optional::filter|result"), [&] { return std::string(cat_name(RV)) + " filter(" + oname(a) + ", pred#" + std::to_string(p) + ") = " + oname(code(r)) + ", expected " + oname(w); });
       chk(c.exactly(a - 1), KEY(a, "optional::filter|calls"), [&] { return "filter(" + oname(a) + "): " + c.str(); });
+      // the documented callable shape is bool (value_type): a predicate that takes its argument BY VALUE.
+      // filter returns _source, so the stored value must still be the original (not moved into the predicate).
+      Calls c2;
+      OD src2 = mk(a);
+      OD const r2 = fcppt::optional::filter(pass<RV>(src2), [&c2, p](D x) -> bool { c2.hit(x.idx()); return x.idx() >= 0 && dig(p, x.idx(), 2) != 0; });
+      chk(code(r2) == w, KEY(a, "optional::filter|result|by-value-predicate"), [&] { return std::string(cat_name(RV)) + " filter(" + oname(a) + ", by-value pred#" + std::to_string(p) + ") = " + oname(code(r2)) + ", expected " + oname(w); });
+      chk(c2.exactly(a - 1), KEY(a, "optional::filter|calls|by-value-predicate"), [&] { return "filter(" + oname(a) + ") with a by-value predicate: " + c2.str(); });
+      if (!RV) chk(code(src2) == a, KEY(a, "optional::filter|lvalue-source-changed"), [&] { return "filter changed its lvalue argument " + oname(a) + " to " + oname(code(src2)); });
     });
     break;
   }
